@@ -21,12 +21,13 @@ type expOpts struct {
 
 type expCase struct {
 	built
-	Spec        *gspec                 `json:"spec,omitempty"` // generator-level form (enough to rebuild Docs)
-	Opts        expOpts                `json:"opts"`
-	FailLoads   []string               `json:"fail_loads,omitempty"` // URLs the loader refuses
-	Choices     []int                  `json:"choices,omitempty"`    // explorer choices (map orders) of the failing execution
-	MapBound    int                    `json:"map_bound"`            // map-order deviations explored when enumerating
-	sharedRoots map[string]interface{} // optional: decoded roots reused across calls (the caller checks they stay unchanged)
+	Spec           *gspec                 `json:"spec,omitempty"` // generator-level form (enough to rebuild Docs)
+	Opts           expOpts                `json:"opts"`
+	FailLoads      []string               `json:"fail_loads,omitempty"` // URLs the loader refuses
+	Choices        []int                  `json:"choices,omitempty"`    // explorer choices (map orders) of the failing execution
+	MapBound       int                    `json:"map_bound"`            // map-order deviations explored when enumerating
+	noGlobalLoader bool                   // do not install the loader as the package-level PathLoader (concurrent harnesses)
+	sharedRoots    map[string]interface{} // optional: decoded roots reused across calls (the caller checks they stay unchanged)
 }
 
 type expObs struct {
